@@ -1287,6 +1287,21 @@ func (fr *Frame) havocPointerArgs(fn *ssa.Function, args []Term, argVals []ssa.V
 			}
 		}
 	}
+	// a []byte argument that is a slice of a byte ARRAY of the caller (buf[:], val[2:6]): []byte values are immutable
+	// in the model, but the callee may write the array through the slice (binary.BigEndian.PutUint64(val[:], v),
+	// io.ReadFull(r, buf[:]) ...): the array's cells become unknown
+	for i := range args {
+		if argVals == nil || i >= len(argVals) {
+			break
+		}
+		if sl, ok := argVals[i].(*ssa.Slice); ok && isByteSlice(sl.Type()) {
+			if pt, ok := sl.X.Type().Underlying().(*types.Pointer); ok {
+				if at, ok := pt.Elem().Underlying().(*types.Array); ok {
+					targets = append(targets, target{at, fr.val(sl.X)})
+				}
+			}
+		}
+	}
 	if len(targets) == 0 {
 		return st
 	}
